@@ -61,7 +61,11 @@ var embedJ2 = []int{0, 1, 31, 33, 100}
 func NewSpace(t Tier) *Space {
 	sp := &Space{T: t}
 	key := fmt.Sprintf("P%d-S%d-E%d-H%d", t.PN, t.SK, t.EmbedPN, t.HugePN)
-	cache := filepath.Join("/verif/.work/cache", "pats-"+key+".txt")
+	root := os.Getenv("VF_ROOT")
+	if root == "" {
+		root = "/verif"
+	}
+	cache := filepath.Join(root, ".work", "cache", "pats-"+key+".txt")
 	if b, err := os.ReadFile(cache); err == nil {
 		lines := strings.Split(strings.TrimSuffix(string(b), "\n"), "\n")
 		if len(lines) >= 4 {
